@@ -190,8 +190,9 @@ def gen():
                 concl.append("%s = BitVec.setWidth 2 (Shift.u32 %s)" % (ext, p))
                 cases.append((p, "Shift.u32"))
             elif kind == "ext":
-                concl.append("%s = BitVec.setWidth 3 (Extend.encoding %s)" % (ext, p))
-                cases.append((p, "Extend.encoding"))
+                # the architectural option table (A64/Lemmas.lean extendOptionSpec), not the encoder's own function
+                concl.append("%s = extendOptionSpec %s sf" % (ext, p))
+                cases.append((p, "Extend.encoding_for, Extend.encoding, extendOptionSpec"))
             elif kind == "lsext":
                 concl.append("Extend.ldst_encoding %s = .ok (BitVec.setWidth 32 (%s))" % (p, ext))
                 cases.append((p, "Extend.ldst_encoding"))
@@ -199,6 +200,10 @@ def gen():
                 raise SystemExit("kind %s" % (kind,))
         mask = 0xFFFFFFFF ^ used
         concl.append("w &&& %d#32 = %d#32" % (mask, const & mask))
+        if name == "addsub_shreg":
+            concl.append("(sf = 0#32 → imm6.ult 32#32 = true)")
+        if name == "bitfield":
+            concl.append("(sf = 0#32 → immr.ult 32#32 = true ∧ imms.ult 32#32 = true)")
         if name == "move_wide_imm":
             concl.append("(sf = 0#32 → hw.ult 2#32 = true)")
         ps = " ".join("(%s : %s)" % (p, LTY[t]) for p, t in params)
